@@ -98,6 +98,9 @@ def check(tier, seed):
                     scheds.add(r['case'])
             else:
                 key = death_key(r) if r.get('death') else r['key']
+                if key.startswith('infra-unmodelled'):
+                    rep.nonrepro.append('unmodelled synchronisation primitive (condition variable) used inside a lookup: the thread simulator cannot decide this run (%s)' % r.get('detail', ''))
+                    continue
                 found.setdefault(key, (b, r))
     # first-use behaviour (lazily initialised statics, once-flags): inside a long-lived worker
     # only the first run of each process can see it, so a sample of runs gets a process each
@@ -179,6 +182,7 @@ def check(tier, seed):
         view_modes={k[6:]: v for k, v in stats_all.items() if k.startswith('vmode.')},
         stacks={k[6:]: v for k, v in stats_all.items() if k.startswith('stack.')},
         tracked_accesses=stats_all.get('tracked_accesses', 0),
+        synchronisation_modelled={k[5:]: v for k, v in stats_all.items() if k.startswith('sync.')},
         pool_tus_not_compiling=sorted(failed_all),
         components=dict(real=['every covfie header reached by field_view::at for the listed stacks, compiled with g++ -fsanitize=thread instrumentation',
                               'real OS threads (one per task), real thread_local storage'],
